@@ -104,6 +104,17 @@ def eslAlistatOneLine (a : Abc) (recs : List Rec) : String :=
     padLeft 7 (toString st.alen) ++ " " ++ padLeft 12 (toString st.nres) ++ " " ++ padLeft 6 (toString st.small) ++ " " ++
     padLeft 6 (toString st.large) ++ " " ++ padLeft 10 (avgLen st.nres st.nseq) ++ " " ++ padLeft 3 (pct0 (avgId a rows 1000)) ++ "\n"
 
+/-- the `esl_dataheader` line pair of `easel alistat -1` -/
+def easelOneLineHeader : String :=
+  let cols : List (Int × String) := [(-6, "idx"), (-20, "name"), (-10, "format"), (10, "nseq"), (10, "alen"), (12, "nres"), (6, "small"),
+    (6, "large"), (8, "avglen"), (3, "%id"), (12, "recsize"), (10, "size/nres")]
+  let cell (first : Bool) (w : Int) (t : String) : String :=
+    let width := w.natAbs - (if first then 2 else 0)
+    (if first then "# " else "") ++ (if w < 0 then padRight width t else padLeft width t)
+  " ".intercalate (cols.mapIdx fun i c => cell (i == 0) c.1 c.2) ++ "\n" ++
+  " ".intercalate (cols.mapIdx fun i c =>
+    (if i == 0 then "#" else "") ++ String.ofList (List.replicate (c.1.natAbs - (if i == 0 then 1 else 0)) '-')) ++ "\n"
+
 /-- `easel alistat -1 <afa>`: `esl_dataheader` line pair + one row; the record size is the file size (one alignment
     starting at offset 0) and `size/nres` is a single-precision quotient -/
 def easelAlistatOneLine (a : Abc) (fileSize : Nat) (recs : List Rec) : String :=
